@@ -12,6 +12,909 @@ Ltac step_cases Hs :=
          end;
   try discriminate; inversion Hs; subst; clear Hs.
 
+Definition holds (p : pc) : bool :=
+  match p with Idle | R_ldc | R_inc | R_ldr | H_rb | H_re | L_dec | M_lock => false | _ => true end.
+
+Definition prefix (a b : list Z) : Prop := exists c, b = a ++ c.
+Definition other (g : glob) : copy := cp g (negb (rl g)).
+Definition vis (g : glob) : Prop := log (cp g (rl g)) = committed g /\ dirty (cp g (rl g)) = false.
+Definition idle_ok (g : glob) : Prop := gph g = PA /\ dirty (other g) = false /\ log (other g) = committed g.
+
+(* what the mutex holder knows at each pc *)
+Definition wok (g : glob) (l : loc) : Prop :=
+  let com := committed g in let f := fid l in let o := log (other g) in
+  let d := dirty (other g) in
+  match at_ l with
+  | M_ldr => gph g = PA /\ d = false /\ o = com /\ com = gold l
+  | A_call true | A_rb true | A_re true =>
+      lrl l = rl g /\ gph g = PA /\ d = false /\ o = com /\ com = gold l
+  | A_wb true => lrl l = rl g /\ gph g = PA /\ d = false /\ o = com /\ com = gold l /\ tmp l = com
+  | A_we true => lrl l = rl g /\ gph g = PA /\ d = true /\ com = gold l /\ tmp l = com
+  | A_call2 true | M_str => lrl l = rl g /\ gph g = PA /\ d = false /\ o = com ++ [f] /\ com = gold l
+  | C_rb true | C_re true => lrl l = rl g /\ gph g = PA /\ d = false /\ com = gold l
+  | C_wb true => lrl l = rl g /\ gph g = PA /\ d = false /\ com = gold l /\ tmp l = com
+  | C_we true => lrl l = rl g /\ gph g = PA /\ d = true /\ com = gold l /\ tmp l = com
+  | C_unlock true => gph g = PA /\ d = false /\ o = com /\ com = gold l
+  | M_ldc => lrl l = negb (rl g) /\ gph g = PC1 /\ d = false /\ com = o ++ [f] /\ com = gold l ++ [f]
+  | M_d1 | M_y1 =>
+      lrl l = negb (rl g) /\ gph g = PC1 /\ d = false /\ com = o ++ [f] /\ com = gold l ++ [f] /\ cl g = lcl l
+  | M_stc =>
+      lrl l = negb (rl g) /\ gph g = PC2 /\ d = false /\ com = o ++ [f] /\ com = gold l ++ [f] /\
+      cl g = lcl l /\ glcl g = lcl l
+  | M_d2 | M_y2 =>
+      lrl l = negb (rl g) /\ gph g = PC2 /\ d = false /\ com = o ++ [f] /\ com = gold l ++ [f] /\
+      cl g = negb (lcl l) /\ glcl g = lcl l
+  | A_call false | A_rb false | A_re false =>
+      lrl l = negb (rl g) /\ gph g = PA /\ d = false /\ com = o ++ [f] /\ com = gold l ++ [f]
+  | A_wb false =>
+      lrl l = negb (rl g) /\ gph g = PA /\ d = false /\ com = o ++ [f] /\ com = gold l ++ [f] /\ tmp l ++ [f] = com
+  | A_we false => lrl l = negb (rl g) /\ gph g = PA /\ d = true /\ com = gold l ++ [f] /\ tmp l ++ [f] = com
+  | A_call2 false | M_unlock => lrl l = negb (rl g) /\ gph g = PA /\ d = false /\ o = com /\ com = gold l ++ [f]
+  | C_rb false | C_re false => lrl l = negb (rl g) /\ gph g = PA /\ d = false /\ com = gold l ++ [f]
+  | C_wb false => lrl l = negb (rl g) /\ gph g = PA /\ d = false /\ com = gold l ++ [f] /\ tmp l = com
+  | C_we false => lrl l = negb (rl g) /\ gph g = PA /\ d = true /\ com = gold l ++ [f] /\ tmp l = com
+  | C_unlock false => gph g = PA /\ d = false /\ o = com /\ com = gold l ++ [f]
+  | _ => True
+  end.
+
+(* what is known about a held handle *)
+Definition hok (g : glob) (h : hnd) : Prop :=
+  match gph g with PA => hd h = rl g | PC1 => True | PC2 => hd h = rl g \/ hc h = glcl g end /\
+  log (cp g (hd h)) = hsnap h /\ dirty (cp g (hd h)) = false /\ prefix (hsnap h) (committed g).
+
+Lemma prefix_refl a : prefix a a.
+Proof. exists []. symmetry. apply app_nil_r. Qed.
+Lemma prefix_app a b c : prefix a b -> prefix a (b ++ c).
+Proof. intros [x ->]. exists (x ++ c). symmetry. apply app_assoc. Qed.
+Lemma prefix_trans a b c : prefix a b -> prefix b c -> prefix a c.
+Proof. intros [x ->] [y ->]. exists (x ++ y). symmetry. apply app_assoc. Qed.
+
+Ltac splits := repeat match goal with |- _ /\ _ => split end.
+Ltac destr_and := repeat match goal with H : _ /\ _ |- _ => destruct H end.
+(* case analysis on the boolean flags that select a copy / counter *)
+Ltac bools :=
+  repeat (match goal with
+          | H : context [if ?b then _ else _] |- _ => destruct b eqn:?
+          | |- context [if ?b then _ else _] => destruct b eqn:?
+          | H : context [negb ?b] |- _ => is_var b; destruct b
+          | |- context [negb ?b] => is_var b; destruct b
+          end; cbn in *; subst; try discriminate).
+
+Ltac prep Hw :=
+  unfold vis, idle_ok, wok, hok, other, cp, ctr, tgt in *; cbn in *;
+  repeat match goal with ph : bool |- _ => match type of Hw with context [if ph then _ else _] => destruct ph end end;
+  cbn in *; try (specialize (Hw eq_refl)); destr_and; subst.
+
+Lemma vis_step t c g l g' l' es :
+  tstep t c g l = Some (g', l', es) -> (holds (at_ l) = true -> wok g l) -> vis g -> vis g'.
+Proof.
+  intros Hs Hw Hv. destruct l as [pr p sls s rcn f lr lc tm go].
+  step_cases Hs; prep Hw; try exact Hv.
+  all: try (bools; splits; congruence).
+Qed.
+
+Ltac close := solve [ exact I | congruence | apply prefix_app; assumption | left; congruence | right; congruence
+                    | exfalso; congruence ].
+
+Lemma wok_step t c g l g' l' es :
+  tstep t c g l = Some (g', l', es) -> (holds (at_ l) = true -> wok g l) ->
+  (mtx g = None -> idle_ok g) -> vis g -> holds (at_ l') = true -> wok g' l'.
+Proof.
+  intros Hs Hw Hi Hv Hh. destruct l as [pr p sls s rcn f lr lc tm go].
+  step_cases Hs; cbn in Hh; try discriminate; prep Hw.
+  all: try (specialize (Hi eq_refl)); destr_and.
+  all: try (bools; splits; close).
+Qed.
+
+Lemma idle_step t c g l g' l' es :
+  tstep t c g l = Some (g', l', es) -> (holds (at_ l) = true -> wok g l) ->
+  (holds (at_ l) = true -> mtx g = Some t) ->
+  (mtx g = None -> idle_ok g) -> mtx g' = None -> idle_ok g'.
+Proof.
+  intros Hs Hw Hm Hi Hn. destruct l as [pr p sls s rcn f lr lc tm go].
+  step_cases Hs; cbn in Hn, Hm; try discriminate; try (specialize (Hm eq_refl); congruence); prep Hw.
+  all: try (specialize (Hi Hn)); destr_and.
+  all: try (bools; splits; close).
+Qed.
+
+Ltac usephase :=
+  repeat match goal with
+         | E : gph ?g = _, H : context [match gph ?g with _ => _ end] |- _ => rewrite E in H
+         | E : gph ?g = _ |- context [match gph ?g with _ => _ end] => rewrite E
+         end; cbn in *.
+
+Lemma hok_step t c g l g' l' es h :
+  tstep t c g l = Some (g', l', es) -> (holds (at_ l) = true -> wok g l) -> vis g ->
+  hok g h -> (forall k, ctr g k = 0 -> hc h <> k) -> hok g' h.
+Proof.
+  intros Hs Hw Hv Hh Hz. destruct l as [pr p sls s rcn f lr lc tm go].
+  step_cases Hs; prep Hw; try exact Hh; usephase.
+  all: try (bools; splits; close).
+  all: match goal with H : (_ =? 0) = true |- _ => apply Z.eqb_eq in H; rename H into Hc end.
+  all: pose proof (Hz _ Hc) as Hne; splits; try assumption.
+  - right. destruct (hc h), (cl g); cbn in *; congruence.
+  - destruct H as [H|H]; congruence.
+Qed.
+
+(* a thread that does not hold the mutex changes nothing the writer or a handle depends on *)
+Definition same_w (g g' : glob) : Prop :=
+  rl g' = rl g /\ cl g' = cl g /\ gph g' = gph g /\ glcl g' = glcl g /\ committed g' = committed g /\
+  forall x, log (cp g' x) = log (cp g x) /\ dirty (cp g' x) = dirty (cp g x).
+
+Lemma nonholder_same t c g l g' l' es :
+  tstep t c g l = Some (g', l', es) -> holds (at_ l) = false -> same_w g g'.
+Proof.
+  intros Hs Hh. destruct l as [pr p sls s rcn f lr lc tm go].
+  step_cases Hs; cbn in Hh; try discriminate; unfold same_w, cp; cbn; splits; try reflexivity.
+  all: intros x; destruct x; bools; auto.
+Qed.
+
+Lemma wok_same g g' l : same_w g g' -> wok g l -> wok g' l.
+Proof.
+  intros (E1 & E2 & E3 & E4 & E5 & E6). unfold wok, other. rewrite E1, E2, E3, E4, E5.
+  destruct (E6 (negb (rl g))) as [-> ->]. auto.
+Qed.
+Lemma hok_same g g' h : same_w g g' -> hok g h -> hok g' h.
+Proof.
+  intros (E1 & E2 & E3 & E4 & E5 & E6). unfold hok. rewrite E1, E3, E4, E5.
+  destruct (E6 (hd h)) as [-> ->]. auto.
+Qed.
+
+
+Lemma mtx_step t c g l g' l' es :
+  tstep t c g l = Some (g', l', es) -> (holds (at_ l) = true -> mtx g = Some t) ->
+  (holds (at_ l') = true -> mtx g' = Some t) /\
+  (holds (at_ l') = false -> holds (at_ l) = true -> mtx g' = None) /\
+  (holds (at_ l') = holds (at_ l) -> mtx g' = mtx g) /\
+  (holds (at_ l) = false -> holds (at_ l') = true -> mtx g = None).
+Proof.
+  intros Hs Hm. destruct l as [pr p sls s rcn f lr lc tm go].
+  step_cases Hs; cbn in *; splits; intros; try discriminate; try reflexivity; auto.
+  all: try (destruct ph; cbn in *; try discriminate; auto).
+Qed.
+
+(* ---------- thread-local facts about the handle slots ---------- *)
+Definition lok (l : loc) : Prop :=
+  match at_ l with
+  | R_ldc | R_inc | R_ldr => nth_error (slots l) (sl l) = Some None
+  | H_rb | H_re | L_dec => exists h, nth_error (slots l) (sl l) = Some (Some h)
+  | _ => True
+  end.
+
+Lemma cur_hnd_nth l h : cur_hnd l = Some h <-> nth_error (slots l) (sl l) = Some (Some h).
+Proof.
+  unfold cur_hnd. destruct (nth_error (slots l) (sl l)) as [[x|]|]; split; intros H; inversion H; reflexivity.
+Qed.
+
+Lemma lok_step t c g l g' l' es : tstep t c g l = Some (g', l', es) -> lok l -> lok l'.
+Proof.
+  intros Hs Hk. destruct l as [pr p sls s rcn f lr lc tm go].
+  step_cases Hs; unfold lok in *; cbn in *; auto; eauto.
+Qed.
+
+Lemma In_upd {A} (l : list A) i x y : In y (upd l i x) -> y = x \/ In y l.
+Proof.
+  revert i; induction l as [|a r IH]; destruct i; cbn; intros H; auto.
+  - destruct H; auto.
+  - destruct H as [H|H]; auto. destruct (IH _ H); auto.
+Qed.
+
+Lemma slots_step t c g l g' l' es h :
+  tstep t c g l = Some (g', l', es) -> In (Some h) (slots l') ->
+  In (Some h) (slots l) \/ (g' = g /\ h = Hnd (rl g) (rcnt l) (committed g)).
+Proof.
+  intros Hs Hin. destruct l as [pr p sls s rcn f lr lc tm go].
+  step_cases Hs; cbn in *; auto.
+  all: apply In_upd in Hin; destruct Hin as [E|Hin]; auto; try discriminate.
+  inversion E; subst. auto.
+Qed.
+
+(* ---------- counting: registered readers, open read windows ---------- *)
+Definition hw (k : bool) (o : option hnd) : nat :=
+  match o with Some h => if Bool.eqb (hc h) k then 1 else 0 | None => 0 end%nat.
+Definition reg (k : bool) (l : loc) : nat :=
+  (list_sum (map (hw k) (slots l)) +
+   match at_ l with R_ldr => if Bool.eqb (rcnt l) k then 1 else 0 | _ => 0 end)%nat.
+Definition rdo (x : bool) (l : loc) : nat :=
+  match at_ l with
+  | H_re => match cur_hnd l with Some h => if Bool.eqb (hd h) x then 1 else 0 | None => 0 end
+  | A_re ph => if Bool.eqb (tgt ph (lrl l)) x then 1 else 0
+  | C_re ph => if Bool.eqb (negb (tgt ph (lrl l))) x then 1 else 0
+  | _ => 0
+  end%nat.
+
+Local Arguments list_sum : simpl never.
+
+Lemma reg_step t c g l g' l' es k :
+  tstep t c g l = Some (g', l', es) -> lok l ->
+  ctr g' k + Z.of_nat (reg k l) = ctr g k + Z.of_nat (reg k l').
+Proof.
+  intros Hs Hk. destruct l as [pr p sls s rcn f lr lc tm go].
+  step_cases Hs; unfold lok, reg, ctr in *; cbn in *; try lia.
+  - (* R_inc *) destruct rcn, k; cbn; lia.
+  - (* R_ldr *) pose proof (sum_upd (hw k) sls s None (Some (Hnd (rl g') rcn (committed g'))) Hk) as E.
+    cbn in E. destruct (Bool.eqb rcn k); lia.
+  - (* L_dec *) apply cur_hnd_nth in Heqo. cbn in Heqo.
+    pose proof (sum_upd (hw k) sls s (Some h) None Heqo) as E. cbn in E.
+    destruct (hc h), k; cbn in *; lia.
+Qed.
+
+Lemma rdo_step t c g l g' l' es x :
+  tstep t c g l = Some (g', l', es) ->
+  nrd (cp g' x) + Z.of_nat (rdo x l) = nrd (cp g x) + Z.of_nat (rdo x l').
+Proof.
+  intros Hs. destruct l as [pr p sls s rcn f lr lc tm go].
+  step_cases Hs; unfold rdo, cp, tgt, cur_hnd, set_at in *; cbn in *; try lia.
+  all: try (destruct (nth_error sls s) as [[h0|]|]; try discriminate; inversion Heqo; subst).
+  all: try (destruct x; bools; lia).
+Qed.
+
+Definition is_wb (p : pc) : bool := match p with A_wb _ | C_wb _ => true | _ => false end.
+
+Lemma nofault_step t c g l g' l' es :
+  tstep t c g l = Some (g', l', es) -> (holds (at_ l) = true -> wok g l) -> vis g ->
+  (forall h, nth_error (slots l) (sl l) = Some (Some h) -> hok g h) -> lok l ->
+  (is_wb (at_ l) = true -> nrd (other g) <= 0) -> faults g' = faults g.
+Proof.
+  intros Hs Hw Hv Hh Hk Hn. destruct l as [pr p sls s rcn f lr lc tm go].
+  step_cases Hs; cbn in *; try lia.
+  all: try match goal with H : cur_hnd _ = Some _ |- _ => apply cur_hnd_nth in H; cbn in H; specialize (Hh _ H) end.
+  all: try (unfold lok, cur_hnd in *; cbn in *;
+            match goal with Hk : exists _, _ |- _ => destruct Hk as [h0 Hk]; rewrite Hk in *; discriminate end).
+  all: prep Hw; usephase.
+  all: try (specialize (Hn eq_refl)).
+  all: try match goal with H : (0 <? _) = true |- _ => apply Z.ltb_lt in H end.
+  all: try (bools; first [lia | congruence]).
+Qed.
+
+(* ---------- sums over lists ---------- *)
+Lemma sum_zero_all {A} (f : A -> nat) (l : list A) u x :
+  list_sum (map f l) = O -> nth_error l u = Some x -> f x = O.
+Proof.
+  revert u; induction l as [|a r IH]; destruct u; cbn; intros H E; try discriminate.
+  - inversion E; subst. unfold list_sum in H. cbn in H. lia.
+  - apply (IH u); auto. unfold list_sum in *. cbn in H. lia.
+Qed.
+Lemma all_zero_sum {A} (f : A -> nat) (l : list A) :
+  (forall u x, nth_error l u = Some x -> f x = O) -> list_sum (map f l) = O.
+Proof.
+  induction l as [|a r IH]; intros H; [reflexivity|].
+  unfold list_sum in *. cbn. rewrite (H O a eq_refl). cbn. apply IH. intros u x E. apply (H (S u) x E).
+Qed.
+Lemma hw_zero k sls h : list_sum (map (hw k) sls) = O -> In (Some h) sls -> hc h <> k.
+Proof.
+  intros Hz Hin. apply In_nth_error in Hin. destruct Hin as [i Hi].
+  pose proof (sum_zero_all _ _ _ _ Hz Hi) as E. cbn in E.
+  intros <-. rewrite Bool.eqb_reflx in E. discriminate.
+Qed.
+
+(* ---------- the invariant ---------- *)
+Record Inv (g : glob) (ls : list loc) : Prop := {
+  I_owner : forall u l, nth_error ls u = Some l -> holds (at_ l) = true -> mtx g = Some u;
+  I_held : forall a, mtx g = Some a -> exists l, nth_error ls a = Some l /\ holds (at_ l) = true;
+  I_w : forall u l, nth_error ls u = Some l -> holds (at_ l) = true -> wok g l;
+  I_idle : mtx g = None -> idle_ok g;
+  I_vis : vis g;
+  I_hnd : forall u l h, nth_error ls u = Some l -> In (Some h) (slots l) -> hok g h;
+  I_cnt : forall k, ctr g k = Z.of_nat (list_sum (map (reg k) ls));
+  I_nrd : forall x, nrd (cp g x) = Z.of_nat (list_sum (map (rdo x) ls));
+  I_loc : forall u l, nth_error ls u = Some l -> lok l;
+  I_nofault : faults g = O
+}.
+
+(* a counter at zero: no handle is registered in it *)
+Lemma no_handle_when_zero g ls k u l h :
+  Inv g ls -> ctr g k = 0 -> nth_error ls u = Some l -> In (Some h) (slots l) -> hc h <> k.
+Proof.
+  intros HI Hz Hl Hin. pose proof (I_cnt _ _ HI k) as E. rewrite Hz in E.
+  assert (list_sum (map (reg k) ls) = O) as E0 by lia.
+  pose proof (sum_zero_all _ _ _ _ E0 Hl) as E1. unfold reg in E1.
+  apply (hw_zero k (slots l)); [lia|exact Hin].
+Qed.
+
+(* while the holder is about to open a write window on the copy readers are not
+   directed to, no read window is open on that copy *)
+Lemma nrd_other g ls t l :
+  Inv g ls -> nth_error ls t = Some l -> is_wb (at_ l) = true -> nrd (other g) = 0.
+Proof.
+  intros HI Hl Hwb. unfold other. rewrite (I_nrd _ _ HI).
+  assert (Hh : holds (at_ l) = true) by (destruct (at_ l); try discriminate; reflexivity).
+  pose proof (I_owner _ _ HI _ _ Hl Hh) as Hm.
+  assert (Hpa : gph g = PA).
+  { pose proof (I_w _ _ HI _ _ Hl Hh) as Hw. unfold wok in Hw.
+    destruct (at_ l); try discriminate; destruct ph; tauto. }
+  rewrite all_zero_sum; [reflexivity|]. intros v lv Hv. unfold rdo.
+  destruct (at_ lv) eqn:Ep; try reflexivity.
+  - destruct (cur_hnd lv) as [h|] eqn:Eh; [|reflexivity].
+    apply cur_hnd_nth in Eh. apply nth_error_In in Eh.
+    pose proof (I_hnd _ _ HI _ _ _ Hv Eh) as [Hs _]. rewrite Hpa in Hs. rewrite Hs.
+    destruct (rl g); reflexivity.
+  - assert (holds (at_ lv) = true) as Hhv by (rewrite Ep; reflexivity).
+    pose proof (I_owner _ _ HI _ _ Hv Hhv). assert (v = t) by congruence. subst v.
+    assert (lv = l) by congruence. subst lv. rewrite Ep in Hwb. discriminate.
+  - assert (holds (at_ lv) = true) as Hhv by (rewrite Ep; reflexivity).
+    pose proof (I_owner _ _ HI _ _ Hv Hhv). assert (v = t) by congruence. subst v.
+    assert (lv = l) by congruence. subst lv. rewrite Ep in Hwb. discriminate.
+Qed.
+
+Lemma Inv_init ns pl progs : Inv (gl (init ns pl progs)) (thr (init ns pl progs)).
+Proof.
+  assert (P : forall u l, nth_error (map (init_loc ns) progs) u = Some l -> exists p, l = init_loc ns p).
+  { intros u l H. rewrite nth_error_map in H. destruct (nth_error progs u); inversion H. eauto. }
+  assert (Q : forall h, ~ In (Some h) (repeat (@None hnd) ns)).
+  { intros h Hin. apply repeat_spec in Hin. discriminate. }
+  assert (S0 : forall k, list_sum (map (hw k) (repeat (@None hnd) ns)) = O).
+  { intros k. apply all_zero_sum. intros u x E. apply nth_error_In in E. apply repeat_spec in E. subst. reflexivity. }
+  unfold init; cbn. constructor; cbn.
+  - intros u l H Hh. destruct (P _ _ H) as [p ->]. discriminate.
+  - discriminate.
+  - intros u l H Hh. destruct (P _ _ H) as [p ->]. discriminate.
+  - intros _. repeat split.
+  - repeat split.
+  - intros u l h H Hin. destruct (P _ _ H) as [p ->]. cbn in Hin. destruct (Q _ Hin).
+  - intros k. rewrite all_zero_sum; [destruct k; reflexivity|].
+    intros u l H. destruct (P _ _ H) as [p ->]. unfold reg. cbn. rewrite S0. reflexivity.
+  - intros x. rewrite all_zero_sum; [destruct x; reflexivity|].
+    intros u l H. destruct (P _ _ H) as [p ->]. reflexivity.
+  - intros u l H. destruct (P _ _ H) as [p ->]. exact I.
+  - reflexivity.
+Qed.
+
+Lemma Inv_step : forall g ls t c l g' l' es,
+  Inv g ls -> nth_error ls t = Some l -> tstep t c g l = Some (g', l', es) -> Inv g' (upd ls t l').
+Proof.
+  intros g ls t c l g' l' es HI Hl Hs.
+  assert (Hw : holds (at_ l) = true -> wok g l) by (intros Hh; exact (I_w _ _ HI _ _ Hl Hh)).
+  assert (Hm : holds (at_ l) = true -> mtx g = Some t) by (intros Hh; exact (I_owner _ _ HI _ _ Hl Hh)).
+  pose proof (I_vis _ _ HI) as Hv. pose proof (I_idle _ _ HI) as Hi. pose proof (I_loc _ _ HI _ _ Hl) as Hk.
+  destruct (mtx_step _ _ _ _ _ _ _ Hs Hm) as (M1 & M2 & M3 & M4).
+  assert (Hnh : holds (at_ l) = false -> same_w g g') by (apply (nonholder_same _ _ _ _ _ _ _ Hs)).
+  constructor.
+  - (* owner *)
+    intros u lu Hu Hh. apply nth_upd in Hu. destruct Hu as [(<- & -> & _)|(Hne & Hu)]; [auto|].
+    pose proof (I_owner _ _ HI _ _ Hu Hh) as Eu.
+    destruct (holds (at_ l)) eqn:E1; [specialize (Hm eq_refl); congruence|].
+    destruct (holds (at_ l')) eqn:E2; [specialize (M4 eq_refl eq_refl); congruence|].
+    rewrite M3; auto.
+  - (* held *)
+    intros a Ha. destruct (Nat.eq_dec a t) as [->|Hne].
+    + exists l'. split; [apply (nth_upd_eq _ _ _ _ Hl)|].
+      destruct (holds (at_ l')) eqn:E2; [reflexivity|exfalso].
+      destruct (holds (at_ l)) eqn:E1; [specialize (M2 eq_refl eq_refl); congruence|].
+      rewrite M3 in Ha by reflexivity. destruct (I_held _ _ HI _ Ha) as [l0 [E0 Hh0]]. congruence.
+    + rewrite nth_upd_ne by auto.
+      destruct (holds (at_ l')) eqn:E2; [specialize (M1 eq_refl); congruence|].
+      destruct (holds (at_ l)) eqn:E1; [specialize (M2 eq_refl eq_refl); congruence|].
+      rewrite M3 in Ha by reflexivity. apply (I_held _ _ HI _ Ha).
+  - (* writer knowledge *)
+    intros u lu Hu Hh. apply nth_upd in Hu. destruct Hu as [(<- & -> & _)|(Hne & Hu)].
+    + eapply wok_step; eauto.
+    + pose proof (I_owner _ _ HI _ _ Hu Hh) as Eu.
+      destruct (holds (at_ l)) eqn:E1; [specialize (Hm eq_refl); congruence|].
+      apply (wok_same g g'); auto. apply (I_w _ _ HI _ _ Hu Hh).
+  - intros Hn. eapply idle_step; eauto.
+  - eapply vis_step; eauto.
+  - (* handles *)
+    intros u lu h Hu Hin. apply nth_upd in Hu. destruct Hu as [(<- & -> & _)|(Hne & Hu)].
+    + destruct (slots_step _ _ _ _ _ _ _ _ Hs Hin) as [Hold|[-> ->]].
+      * eapply hok_step; eauto. apply (I_hnd _ _ HI _ _ _ Hl Hold).
+        intros k Hz. eapply no_handle_when_zero; eauto.
+      * destruct Hv as [V1 V2]. unfold hok. cbn. repeat split; auto.
+        -- destruct (gph g); auto.
+        -- apply prefix_refl.
+    + eapply hok_step; eauto. apply (I_hnd _ _ HI _ _ _ Hu Hin).
+      intros k Hz. eapply no_handle_when_zero; eauto.
+  - (* reader counters *)
+    intros k. pose proof (reg_step _ _ _ _ _ _ _ k Hs Hk) as E.
+    pose proof (sum_upd (reg k) ls t l l' Hl) as E2. pose proof (I_cnt _ _ HI k). lia.
+  - (* open read windows *)
+    intros x. pose proof (rdo_step _ _ _ _ _ _ _ x Hs) as E.
+    pose proof (sum_upd (rdo x) ls t l l' Hl) as E2. pose proof (I_nrd _ _ HI x). lia.
+  - intros u lu Hu. apply nth_upd in Hu. destruct Hu as [(<- & -> & _)|(Hne & Hu)].
+    + eapply lok_step; eauto.
+    + apply (I_loc _ _ HI _ _ Hu).
+  - rewrite <- (I_nofault _ _ HI). eapply nofault_step; eauto.
+    + intros h Hn. apply nth_error_In in Hn. apply (I_hnd _ _ HI _ _ _ Hl Hn).
+    + intros Hwb. rewrite (nrd_other _ _ _ _ HI Hl Hwb). lia.
+Qed.
+
+(* ---------- reachable states ---------- *)
+Notation sysR := (sys glob loc).
+Notation stepR := (step glob loc tstep).
+Notation runR := (run glob loc tstep).
+Notation enabledR := (enabled glob loc tstep).
+Definition R (ns : nat) (pl : list Z) (progs : list (list op)) (s : sysR) : Prop :=
+  reachable glob loc tstep (init ns pl progs) s.
+
+Lemma R_inv ns pl progs s : R ns pl progs s -> Inv (gl s) (thr s).
+Proof. intros H. eapply reachable_inv; [apply Inv_step|apply Inv_init|exact H]. Qed.
+Lemma R_step ns pl progs s tc : R ns pl progs s -> R ns pl progs (stepR s tc).
+Proof. apply reachable_step. Qed.
+Lemma R_run ns pl progs s sc : R ns pl progs s -> R ns pl progs (runR s sc).
+Proof. intros H. eapply reachable_trans; [exact H|]. exists sc. reflexivity. Qed.
+
+(* ---------- C03: exclusion ---------- *)
+(* the copy a thread inside an application of the functor / a catch block writes *)
+Definition wr_target (l : loc) : option bool :=
+  match at_ l with
+  | A_call ph | A_rb ph | A_re ph | A_wb ph | A_we ph | A_call2 ph
+  | C_rb ph | C_re ph | C_wb ph | C_we ph => Some (tgt ph (lrl l))
+  | _ => None
+  end.
+Definition wr_open (l : loc) (x : bool) : Prop :=
+  match at_ l with A_we ph | C_we ph => tgt ph (lrl l) = x | _ => False end.
+Definition rd_open (l : loc) (x : bool) : Prop := rdo x l = 1%nat.
+Definition holds_handle (l : loc) (h : hnd) : Prop := In (Some h) (slots l).
+
+Lemma wr_target_other g l x : wok g l -> wr_target l = Some x -> x = negb (rl g) /\ gph g = PA.
+Proof.
+  unfold wok, wr_target, tgt. destruct (at_ l); try discriminate; destruct ph; cbn;
+    intros Hw E; inversion E; subst; destr_and; split; auto; try congruence.
+  all: match goal with H : lrl _ = _ |- _ => rewrite H end; try reflexivity; apply negb_involutive.
+Qed.
+Lemma wr_target_holds l x : wr_target l = Some x -> holds (at_ l) = true.
+Proof. unfold wr_target. destruct (at_ l); try discriminate; reflexivity. Qed.
+
+Lemma exclusion ns pl progs s r lr w lw h x :
+  R ns pl progs s -> nth_error (thr s) r = Some lr -> holds_handle lr h ->
+  nth_error (thr s) w = Some lw -> wr_target lw = Some x ->
+  hd h <> x /\ dirty (cp (gl s) (hd h)) = false /\ log (cp (gl s) (hd h)) = hsnap h.
+Proof.
+  intros HR Hr Hh Hw Ht. pose proof (R_inv _ _ _ _ HR) as HI.
+  pose proof (I_w _ _ HI _ _ Hw (wr_target_holds _ _ Ht)) as Hwok.
+  destruct (wr_target_other _ _ _ Hwok Ht) as [-> Hpa].
+  destruct (I_hnd _ _ HI _ _ _ Hr Hh) as (Hs & Hlog & Hd & _). rewrite Hpa in Hs.
+  repeat split; auto. rewrite Hs. destruct (rl (gl s)); discriminate.
+Qed.
+
+(* a held handle: its copy is complete, carries the state committed when the handle
+   was taken, and that state is a prefix of what is committed now *)
+Lemma handle_state ns pl progs s r lr h :
+  R ns pl progs s -> nth_error (thr s) r = Some lr -> holds_handle lr h ->
+  log (cp (gl s) (hd h)) = hsnap h /\ dirty (cp (gl s) (hd h)) = false /\ prefix (hsnap h) (committed (gl s)).
+Proof.
+  intros HR Hr Hh. destruct (I_hnd _ _ (R_inv _ _ _ _ HR) _ _ _ Hr Hh) as (_ & A & B & C). auto.
+Qed.
+
+Lemma no_fault ns pl progs s : R ns pl progs s -> faults (gl s) = O.
+Proof. intros HR. apply (I_nofault _ _ (R_inv _ _ _ _ HR)). Qed.
+
+(* a read through a handle returns the handle's state, without a fault event *)
+Lemma read_returns_snapshot ns pl progs s t c l g' l' es :
+  R ns pl progs s -> nth_error (thr s) t = Some l -> at_ l = H_re ->
+  tstep t c (gl s) l = Some (g', l', es) ->
+  exists h, nth_error (slots l) (sl l) = Some (Some h) /\
+            es = [E K_RD_END (o_cp (hd h)) (enc (hsnap h)); ret_ev (enc (hsnap h))].
+Proof.
+  intros HR Hl Hp Hs. pose proof (R_inv _ _ _ _ HR) as HI.
+  pose proof (I_loc _ _ HI _ _ Hl) as Hk. unfold lok in Hk. rewrite Hp in Hk. destruct Hk as [h Hk].
+  exists h. split; [exact Hk|].
+  pose proof (I_hnd _ _ HI _ _ _ Hl (nth_error_In _ _ Hk)) as (_ & Hlog & Hd & _).
+  unfold tstep in Hs. rewrite Hp in Hs. apply cur_hnd_nth in Hk. rewrite Hk in Hs.
+  unfold rd_end in Hs. rewrite Hd, Hlog in Hs. cbn in Hs. inversion Hs. reflexivity.
+Qed.
+
+(* ---------- C03: the visible state only grows, by appending ---------- *)
+Lemma committed_tstep t c g l g' l' es : tstep t c g l = Some (g', l', es) ->
+  committed g' = committed g \/ (at_ l = M_str /\ committed g' = committed g ++ [fid l]).
+Proof.
+  intros Hs. destruct l as [pr p sls s rcn f lr lc tm go]. step_cases Hs; cbn; auto.
+Qed.
+
+Lemma committed_step (s : sysR) tc : prefix (committed (gl s)) (committed (gl (stepR s tc))).
+Proof.
+  unfold step, sys_step. destruct tc as [t c].
+  destruct (nth_error (thr s) t) as [l|]; [|apply prefix_refl].
+  destruct (tstep t c (gl s) l) as [[[g' l'] es]|] eqn:Hs; [|apply prefix_refl]. cbn.
+  destruct (committed_tstep _ _ _ _ _ _ _ Hs) as [->|[_ ->]]; [apply prefix_refl|].
+  apply prefix_app, prefix_refl.
+Qed.
+
+Lemma committed_monotone (s : sysR) sc : prefix (committed (gl s)) (committed (gl (runR s sc))).
+Proof.
+  apply (run_rel glob loc tstep (fun a b => prefix (committed (gl a)) (committed (gl b)))).
+  - intros a. apply prefix_refl.
+  - intros a b c0. apply prefix_trans.
+  - apply committed_step.
+Qed.
+
+Lemma visible_is_committed ns pl progs s :
+  R ns pl progs s -> log (cp (gl s) (rl (gl s))) = committed (gl s) /\ dirty (cp (gl s) (rl (gl s))) = false.
+Proof. intros HR. apply (I_vis _ _ (R_inv _ _ _ _ HR)). Qed.
+
+(* completing an acquisition yields a handle on the state committed at that moment *)
+Lemma acquire_snapshot t c g l g' l' es :
+  at_ l = R_ldr -> lok l -> tstep t c g l = Some (g', l', es) ->
+  g' = g /\ at_ l' = Idle /\ In (ret_ev 0) es /\
+  nth_error (slots l') (sl l) = Some (Some (Hnd (rl g) (rcnt l) (committed g))).
+Proof.
+  intros Hp Hk Hs. unfold lok in Hk. rewrite Hp in Hk. unfold tstep in Hs. rewrite Hp in Hs.
+  inversion Hs; subst. cbn. repeat split; auto. apply (nth_upd_eq _ _ _ _ Hk).
+Qed.
+
+(* values seen through a handle taken later extend values seen through any earlier handle *)
+Lemma reads_monotone ns pl progs s1 sc r1 lr1 h1 t c l g' l' es :
+  R ns pl progs s1 -> nth_error (thr s1) r1 = Some lr1 -> holds_handle lr1 h1 ->
+  let s2 := runR s1 sc in
+  nth_error (thr s2) t = Some l -> at_ l = R_ldr -> tstep t c (gl s2) l = Some (g', l', es) ->
+  exists h2, nth_error (slots l') (sl l) = Some (Some h2) /\ hsnap h2 = committed (gl s2) /\
+             prefix (hsnap h1) (hsnap h2).
+Proof.
+  intros HR Hr Hh s2 Hl Hp Hs.
+  pose proof (I_loc _ _ (R_inv _ _ _ _ (R_run _ _ _ _ sc HR)) _ _ Hl) as Hk.
+  destruct (acquire_snapshot _ _ _ _ _ _ _ Hp Hk Hs) as (_ & _ & _ & Hn).
+  eexists. split; [exact Hn|]. split; [reflexivity|]. cbn.
+  destruct (handle_state _ _ _ _ _ _ _ HR Hr Hh) as (_ & _ & Hpre).
+  eapply prefix_trans; [exact Hpre|apply committed_monotone].
+Qed.
+
+(* a modify that is about to return has appended exactly its functor to the state it found *)
+Lemma modify_effect ns pl progs s w lw :
+  R ns pl progs s -> nth_error (thr s) w = Some lw ->
+  match at_ lw with
+  | M_unlock | C_unlock false => committed (gl s) = gold lw ++ [fid lw]
+  | C_unlock true => committed (gl s) = gold lw
+  | _ => True
+  end.
+Proof.
+  intros HR Hw. pose proof (R_inv _ _ _ _ HR) as HI.
+  destruct (holds (at_ lw)) eqn:Hh; [|destruct (at_ lw); try discriminate; exact I].
+  pose proof (I_w _ _ HI _ _ Hw Hh) as Hwok. unfold wok in Hwok.
+  destruct (at_ lw); try exact I; try destruct ph; tauto.
+Qed.
+
+(* a lock_shared completed after modify(f) was about to return sees f and everything before it *)
+Lemma read_after_modify ns pl progs s1 sc w lw t c l g' l' es :
+  R ns pl progs s1 -> nth_error (thr s1) w = Some lw -> at_ lw = M_unlock ->
+  let s2 := runR s1 sc in
+  nth_error (thr s2) t = Some l -> at_ l = R_ldr -> tstep t c (gl s2) l = Some (g', l', es) ->
+  exists h2, nth_error (slots l') (sl l) = Some (Some h2) /\ prefix (gold lw ++ [fid lw]) (hsnap h2).
+Proof.
+  intros HR Hw Hpw s2 Hl Hp Hs.
+  pose proof (I_loc _ _ (R_inv _ _ _ _ (R_run _ _ _ _ sc HR)) _ _ Hl) as Hk.
+  destruct (acquire_snapshot _ _ _ _ _ _ _ Hp Hk Hs) as (_ & _ & _ & Hn).
+  eexists. split; [exact Hn|]. cbn.
+  pose proof (modify_effect _ _ _ _ _ _ HR Hw) as E. rewrite Hpw in E. rewrite <- E.
+  apply committed_monotone.
+Qed.
+
+(* writer idle: both copies complete and equal to the committed sequence *)
+Lemma serial_idle ns pl progs s :
+  R ns pl progs s -> mtx (gl s) = None ->
+  log (left (gl s)) = committed (gl s) /\ log (right (gl s)) = committed (gl s) /\
+  dirty (left (gl s)) = false /\ dirty (right (gl s)) = false.
+Proof.
+  intros HR Hm. pose proof (R_inv _ _ _ _ HR) as HI.
+  destruct (I_idle _ _ HI Hm) as (_ & D & L). destruct (I_vis _ _ HI) as [L2 D2].
+  unfold other, cp in *. destruct (rl (gl s)); cbn in *; auto.
+Qed.
+
+(* the committed sequence grows only by the flip of the mutex holder, one functor at a time *)
+Lemma commit_in_mutex_order ns pl progs s t c l g' l' es :
+  R ns pl progs s -> nth_error (thr s) t = Some l -> tstep t c (gl s) l = Some (g', l', es) ->
+  committed g' = committed (gl s) \/
+  (committed g' = committed (gl s) ++ [fid l] /\ mtx (gl s) = Some t /\ at_ l = M_str /\
+   committed (gl s) = gold l).
+Proof.
+  intros HR Hl Hs. destruct (committed_tstep _ _ _ _ _ _ _ Hs) as [E|[Hp E]]; [left; exact E|right].
+  pose proof (R_inv _ _ _ _ HR) as HI.
+  assert (Hh : holds (at_ l) = true) by (rewrite Hp; reflexivity).
+  pose proof (I_w _ _ HI _ _ Hl Hh) as Hwok. unfold wok in Hwok. rewrite Hp in Hwok.
+  repeat split; auto; try tauto. apply (I_owner _ _ HI _ _ Hl Hh).
+Qed.
+
+Definition pcof (s : sysR) (u : nat) : pc :=
+  match nth_error (thr s) u with Some l => at_ l | None => Idle end.
+
+Lemma counters_count ns pl progs s k :
+  R ns pl progs s -> ctr (gl s) k = Z.of_nat (list_sum (map (reg k) (thr s))).
+Proof. intros HR. apply (I_cnt _ _ (R_inv _ _ _ _ HR)). Qed.
+
+(* ---------- C14: reads never wait ---------- *)
+Definition in_acquire (p : pc) : bool := match p with R_ldc | R_inc | R_ldr => true | _ => false end.
+Definition reader_pc (p : pc) : bool :=
+  match p with R_ldc | R_inc | R_ldr | H_rb | H_re | L_dec => true | _ => false end.
+Definition is_mutex_kind (k : Z) : bool := (K_LOCK <=? k) && (k <=? K_TRYLOCK_SH_FOR).
+Definition is_blocking_kind (k : Z) : bool :=
+  is_mutex_kind k || (k =? K_CV_SLEEP) || (k =? K_YIELD) || (k =? K_SLEEP).
+
+(* a thread inside lock_shared (or any other reader operation) is enabled in every state, under
+   every choice - reachable or not, whatever pc any writer is at *)
+Lemma read_wait_free t c g l : reader_pc (at_ l) = true -> exists r, tstep t c g l = Some r.
+Proof.
+  intros Hp. destruct l as [pr p sls s rcn f lr lc tm go]. cbn in Hp.
+  destruct p; try discriminate; unfold tstep, bad; cbn [at_]; try (eexists; reflexivity).
+  all: destruct (cur_hnd _); [|eexists; reflexivity].
+  all: try (unfold rd_begin, rd_end; eexists; reflexivity).
+Qed.
+
+(* the acquisition is exactly three own steps (load countingLeft, increment, load readingLeft),
+   whatever the other threads do in between (g0, g1, g2 arbitrary) *)
+Lemma acquire_three_steps t c0 c1 c2 g0 g1 g2 l :
+  at_ l = R_ldc -> nth_error (slots l) (sl l) = Some None ->
+  exists l1 l2 l3 g1' g2' e0 e1 e2,
+    tstep t c0 g0 l = Some (g0, l1, [e0]) /\ ek e0 = K_LOAD /\ at_ l1 = R_inc /\ rcnt l1 = cl g0 /\
+    tstep t c1 g1 l1 = Some (g1', l2, [e1]) /\ ek e1 = K_RMW /\ at_ l2 = R_ldr /\
+    ctr g1' (cl g0) = ctr g1 (cl g0) + 1 /\
+    tstep t c2 g2 l2 = Some (g2', l3, [e2; ret_ev 0]) /\ ek e2 = K_LOAD /\ at_ l3 = Idle /\ g2' = g2 /\
+    nth_error (slots l3) (sl l) = Some (Some (Hnd (rl g2) (cl g0) (committed g2))).
+Proof.
+  intros Hp Hn. destruct l as [pr p sls s rcn f lr lc tm go]. cbn in *. subst p.
+  do 8 eexists. unfold tstep; cbn.
+  repeat (split; [reflexivity|]). split; [|repeat (split; [reflexivity|])].
+  - unfold ctr, set_ctr. destruct (cl g0); reflexivity.
+  - apply (nth_upd_eq _ _ _ _ Hn).
+Qed.
+
+(* reader operations perform no mutex operation, never yield or sleep, and leave the mutex alone *)
+Lemma readers_take_no_mutex t c g l g' l' es :
+  tstep t c g l = Some (g', l', es) -> reader_pc (at_ l) = true ->
+  mtx g' = mtx g /\ forall e, In e es -> is_blocking_kind (ek e) = false.
+Proof.
+  intros Hs Hp. destruct l as [pr p sls s rcn f lr lc tm go].
+  step_cases Hs; cbn in Hp; try discriminate; cbn; split; auto.
+  all: intros e Hin; cbn in Hin; repeat (destruct Hin as [Hin|Hin]; [subst e; reflexivity|]); contradiction.
+Qed.
+
+(* the counter a drain loop waits for *)
+Definition awaits (l : loc) : option bool :=
+  match at_ l with
+  | M_d1 | M_y1 => Some (negb (lcl l))
+  | M_d2 | M_y2 => Some (lcl l)
+  | _ => None
+  end.
+
+(* the writer waits only for registered readers: once the awaited counter is zero the next
+   load leaves the loop *)
+Lemma writer_drain_exits t c g l :
+  (at_ l = M_d1 \/ at_ l = M_d2) -> (forall k, awaits l = Some k -> ctr g k = 0) ->
+  exists g' l' es, tstep t c g l = Some (g', l', es) /\
+                   at_ l' = (match at_ l with M_d1 => M_stc | _ => A_call false end).
+Proof.
+  intros Hp Hz. destruct l as [pr p sls s rcn f lr lc tm go]. unfold awaits in Hz. cbn in *.
+  destruct Hp; subst p; unfold tstep; cbn; rewrite (Hz _ eq_refl); cbn; do 3 eexists; split; reflexivity.
+Qed.
+
+(* ... and readers that arrive during a drain register in the other counter: while a writer is in
+   a drain loop, m_countingLeft designates the counter it is NOT waiting for *)
+Lemma new_readers_other_counter ns pl progs s w lw k :
+  R ns pl progs s -> nth_error (thr s) w = Some lw -> awaits lw = Some k -> cl (gl s) = negb k.
+Proof.
+  intros HR Hw Ha. pose proof (R_inv _ _ _ _ HR) as HI.
+  assert (Hh : holds (at_ lw) = true) by (unfold awaits in Ha; destruct (at_ lw); try discriminate; reflexivity).
+  pose proof (I_w _ _ HI _ _ Hw Hh) as Hwok. unfold wok in Hwok. unfold awaits in Ha.
+  destruct (at_ lw); try discriminate; inversion Ha; subst; destr_and; try congruence.
+  all: rewrite negb_involutive; congruence.
+Qed.
+Lemma new_reader_registers_elsewhere ns pl progs s w lw k t c l g' l' es :
+  R ns pl progs s -> nth_error (thr s) w = Some lw -> awaits lw = Some k ->
+  at_ l = R_ldc -> tstep t c (gl s) l = Some (g', l', es) -> at_ l' = R_inc /\ rcnt l' = negb k.
+Proof.
+  intros HR Hw Ha Hp Hs. rewrite <- (new_readers_other_counter _ _ _ _ _ _ _ HR Hw Ha).
+  unfold tstep in Hs. rewrite Hp in Hs. inversion Hs; subst. split; reflexivity.
+Qed.
+
+(* a non-zero counter means a registered reader: some thread holds a handle registered in it, or
+   has incremented it and is about to complete its acquisition *)
+Lemma sum_pos_ex {A} (f : A -> nat) (l : list A) :
+  (0 < list_sum (map f l))%nat -> exists u x, nth_error l u = Some x /\ (0 < f x)%nat.
+Proof.
+  induction l as [|a r IH]; unfold list_sum; cbn; intros H; [lia|].
+  destruct (f a) eqn:E.
+  - destruct (IH H) as (u & x & Hu & Hx). exists (S u), x. auto.
+  - exists O, a. split; [reflexivity|lia].
+Qed.
+Lemma counter_nonneg ns pl progs s k : R ns pl progs s -> 0 <= ctr (gl s) k.
+Proof. intros HR. rewrite (counters_count _ _ _ _ k HR). lia. Qed.
+Lemma spinning_means_registered ns pl progs s k :
+  R ns pl progs s -> ctr (gl s) k <> 0 ->
+  exists u lu, nth_error (thr s) u = Some lu /\
+    ((exists h, holds_handle lu h /\ hc h = k) \/ (at_ lu = R_ldr /\ rcnt lu = k)).
+Proof.
+  intros HR Hnz. pose proof (counters_count _ _ _ _ k HR) as E.
+  destruct (sum_pos_ex (reg k) (thr s)) as (u & lu & Hu & Hpos); [lia|].
+  exists u, lu. split; [exact Hu|]. unfold reg in Hpos.
+  destruct (list_sum (map (hw k) (slots lu))) eqn:Es.
+  - right. destruct (at_ lu); cbn in Hpos; try lia.
+    destruct (Bool.eqb (rcnt lu) k) eqn:Eb; [|lia]. apply eqb_prop in Eb. auto.
+  - left. destruct (sum_pos_ex (hw k) (slots lu)) as (i & o & Hi & Ho); [lia|].
+    destruct o as [h|]; cbn in Ho; [|lia]. exists h. split; [apply (nth_error_In _ _ Hi)|].
+    destruct (Bool.eqb (hc h) k) eqn:Eb; [|lia]. apply eqb_prop in Eb. exact Eb.
+Qed.
+
+(* the owner of the write mutex can always move (it never blocks while holding it) *)
+Lemma holder_enabled ns pl progs s a c : R ns pl progs s -> mtx (gl s) = Some a -> enabledR s a c.
+Proof.
+  intros HR Hm. destruct (I_held _ _ (R_inv _ _ _ _ HR) _ Hm) as [l [Hl Hh]].
+  assert (exists r, tstep a c (gl s) l = Some r) as [r Hr]; [|exists l, r; auto].
+  destruct l as [pr p sls sl0 rcn f lr lc tm go]. cbn in Hh. unfold tstep. cbn [at_].
+  destruct p; try discriminate; try (eexists; reflexivity).
+  all: try (destruct (zmem _ _); eexists; reflexivity).
+  all: try (unfold rd_begin, rd_end, wr_begin, wr_end; eexists; reflexivity).
+  all: destruct (_ =? 0); eexists; reflexivity.
+Qed.
+
+(* no deadlock, ever: when nothing can move, every thread has finished its program *)
+Lemma quiescent_finished ns pl progs s :
+  R ns pl progs s -> quiescent glob loc tstep s -> all_fin glob loc fin s = true.
+Proof.
+  intros HR HQ.
+  assert (Hfree : mtx (gl s) = None).
+  { destruct (mtx (gl s)) as [a|] eqn:Hm; [|reflexivity].
+    exfalso. apply (HQ a 0%nat); [lia|]. eapply holder_enabled; eauto. }
+  unfold all_fin. apply forallb_forall. intros l Hin. apply In_nth_error in Hin. destruct Hin as [t Hl].
+  destruct (tstep t 0 (gl s) l) as [r|] eqn:Hs.
+  { exfalso. apply (HQ t 0%nat); [lia|]. exists l, r. auto. }
+  destruct l as [pr p sls sl0 rcn f lr lc tm go]. unfold tstep, bad in Hs. cbn [at_ prog] in Hs.
+  destruct p; try discriminate.
+  - destruct pr as [|o r0]; [reflexivity|].
+    cbn in Hs. repeat match type of Hs with context [match ?x with _ => _ end] => destruct x end; discriminate.
+  - destruct (cur_hnd _); [unfold rd_begin in Hs|]; discriminate.
+  - destruct (cur_hnd _); [unfold rd_end in Hs|]; discriminate.
+  - destruct (cur_hnd _); discriminate.
+  - cbn in Hs. rewrite Hfree in Hs. discriminate.
+  - destruct (zmem _ _); discriminate.
+  - destruct (zmem _ _); discriminate.
+  - destruct (_ =? 0); discriminate.
+  - destruct (_ =? 0); discriminate.
+Qed.
+
+(* ---------- bounded work: only a drain loop that sees a non-zero counter can go round ---------- *)
+Definition wpc (p : pc) : nat :=
+  match p with
+  | Idle => 0 | R_ldc => 3 | R_inc => 2 | R_ldr => 1 | H_rb => 2 | H_re => 1 | L_dec => 1
+  | M_lock => 40 | M_ldr => 39
+  | A_call true => 38 | A_rb true => 37 | A_re true => 36 | A_wb true => 35 | A_we true => 34 | A_call2 true => 33
+  | M_str => 32 | M_ldc => 31 | M_y1 => 30 | M_d1 => 29 | M_stc => 28 | M_y2 => 27 | M_d2 => 26
+  | A_call false => 25 | A_rb false => 24 | A_re false => 23 | A_wb false => 22 | A_we false => 21 | A_call2 false => 20
+  | C_rb _ => 6 | C_re _ => 5 | C_wb _ => 4 | C_we _ => 3 | C_unlock _ => 2 | M_unlock => 1
+  end%nat.
+Definition wloc (l : loc) : nat := (41 * length (prog l) + wpc (at_ l))%nat.
+Definition mu (s : sysR) : nat := list_sum (map wloc (thr s)).
+(* the retry step: a drain-loop load that returns a non-zero counter *)
+Definition is_retry (g : glob) (l : loc) : bool :=
+  match at_ l with
+  | M_d1 => negb (ctr g (negb (lcl l)) =? 0)
+  | M_d2 => negb (ctr g (lcl l) =? 0)
+  | _ => false
+  end.
+
+Lemma wloc_step t c g l g' l' es : tstep t c g l = Some (g', l', es) ->
+  if is_retry g l then wloc l' = S (wloc l) else (wloc l' < wloc l)%nat.
+Proof.
+  intros Hs. destruct l as [pr p sls s rcn f lr lc tm go].
+  step_cases Hs; unfold is_retry, wloc; cbn [at_ prog lcl set_at set_tmp set_slots length wpc];
+    try match goal with H : (_ =? 0) = _ |- _ => rewrite H end; cbn [negb]; try lia.
+  all: try (destruct ph; lia).
+Qed.
+
+(* (moves that are not retries, retries) of a schedule from s *)
+Fixpoint work_retries (s : sysR) (sc : list (nat * nat)) : nat * nat :=
+  match sc with
+  | [] => (O, O)
+  | tc :: r =>
+    let wq := work_retries (stepR s tc) r in
+    match nth_error (thr s) (fst tc) with
+    | Some l =>
+      match tstep (fst tc) (snd tc) (gl s) l with
+      | Some _ => if is_retry (gl s) l then (fst wq, S (snd wq)) else (S (fst wq), snd wq)
+      | None => wq
+      end
+    | None => wq
+    end
+  end.
+
+Lemma bounded_work sc : forall s : sysR,
+  (fst (work_retries s sc) + mu (runR s sc) <= mu s + snd (work_retries s sc))%nat.
+Proof.
+  induction sc as [|[t c] r IH]; intros s; cbn [work_retries run fold_left fst snd]; [lia|].
+  specialize (IH (stepR s (t, c))). unfold run in IH.
+  unfold step, sys_step in *. destruct (nth_error (thr s) t) as [l|] eqn:Hl; [|cbn in *; exact IH].
+  destruct (tstep t c (gl s) l) as [[[g' l'] es]|] eqn:Hs; [|cbn in *; exact IH].
+  cbn [fst] in *. pose proof (wloc_step _ _ _ _ _ _ _ Hs) as Hw.
+  pose proof (sum_upd wloc (thr s) t l l' Hl) as E.
+  unfold mu at 2. unfold mu at 2 in IH. cbn [thr gl] in IH.
+  destruct (is_retry (gl s) l); cbn [fst snd]; lia.
+Qed.
+
+(* ---------- C20: all-or-nothing under throwing functors, the lock is released ---------- *)
+Lemma exit_state ns pl progs s t l :
+  R ns pl progs s -> nth_error (thr s) t = Some l ->
+  match at_ l with
+  | C_unlock true =>
+      log (left (gl s)) = gold l /\ log (right (gl s)) = gold l /\
+      dirty (left (gl s)) = false /\ dirty (right (gl s)) = false /\ committed (gl s) = gold l
+  | C_unlock false | M_unlock =>
+      log (left (gl s)) = gold l ++ [fid l] /\ log (right (gl s)) = gold l ++ [fid l] /\
+      dirty (left (gl s)) = false /\ dirty (right (gl s)) = false /\ committed (gl s) = gold l ++ [fid l]
+  | _ => True
+  end.
+Proof.
+  intros HR Hl. pose proof (R_inv _ _ _ _ HR) as HI.
+  destruct (holds (at_ l)) eqn:Hh; [|destruct (at_ l); try discriminate; exact I].
+  pose proof (I_w _ _ HI _ _ Hl Hh) as Hw. destruct (I_vis _ _ HI) as [V1 V2].
+  unfold wok, other, cp in *.
+  destruct (at_ l); try exact I; try destruct ph; destr_and; destruct (rl (gl s)); cbn in *;
+    repeat split; congruence.
+Qed.
+
+(* the steps of a catch block and of the unwinding, in every state: the restoring copy's four
+   window edges, then the unlock together with the propagated exception *)
+Lemma catch_path t c g l g' l' es : tstep t c g l = Some (g', l', es) ->
+  match at_ l with
+  | C_rb ph => at_ l' = C_re ph | C_re ph => at_ l' = C_wb ph
+  | C_wb ph => at_ l' = C_we ph | C_we ph => at_ l' = C_unlock ph
+  | C_unlock _ => at_ l' = Idle /\ mtx g' = None /\ es = [E K_UNLOCK O_MTX 0; E K_CATCH 0 0]
+  | _ => True
+  end.
+Proof.
+  intros Hs. destruct l as [pr p sls s rcn f lr lc tm go]. step_cases Hs; cbn; auto.
+Qed.
+(* a throwing invocation of user code enters the catch block of its application *)
+Lemma throw_enters_catch t c g l g' l' es ph :
+  (at_ l = A_call ph \/ at_ l = A_call2 ph) -> zmem (calls g) (plan g) = true ->
+  tstep t c g l = Some (g', l', es) -> at_ l' = C_rb ph /\ In (E K_THROW 0 (calls g)) es.
+Proof.
+  intros Hp Hz Hs. destruct l as [pr p sls s rcn f lr lc tm go]. cbn in Hp.
+  destruct Hp; subst p; unfold tstep in Hs; cbn in Hs; rewrite Hz in Hs; inversion Hs; cbn; auto.
+Qed.
+
+(* a thread that is not inside modify (in particular: back at top level after an exception)
+   does not own the write mutex; and a free mutex can be taken by whoever asks *)
+Lemma nonholder_owns_nothing ns pl progs s t l :
+  R ns pl progs s -> nth_error (thr s) t = Some l -> holds (at_ l) = false -> mtx (gl s) <> Some t.
+Proof.
+  intros HR Hl Hh Hm. destruct (I_held _ _ (R_inv _ _ _ _ HR) _ Hm) as [l0 [E0 H0]]. congruence.
+Qed.
+Lemma lock_enabled_when_free t c g l :
+  at_ l = M_lock -> mtx g = None -> exists r, tstep t c g l = Some r.
+Proof. intros Hp Hm. unfold tstep. rewrite Hp, Hm. eexists. reflexivity. Qed.
+
+(* ---------- C07 (layer 2): conflicting payload windows are never open together ---------- *)
+Lemma wr_open_target l x : wr_open l x -> wr_target l = Some x.
+Proof. unfold wr_open, wr_target. destruct (at_ l); try contradiction; intros <-; reflexivity. Qed.
+
+Lemma windows_disjoint ns pl progs s u lu v lv x :
+  R ns pl progs s -> nth_error (thr s) u = Some lu -> nth_error (thr s) v = Some lv ->
+  wr_open lu x -> ~ rd_open lv x /\ (forall y, wr_open lv y -> u = v).
+Proof.
+  intros HR Hu Hv Hw. pose proof (R_inv _ _ _ _ HR) as HI.
+  pose proof (wr_open_target _ _ Hw) as Ht. pose proof (wr_target_holds _ _ Ht) as Hh.
+  pose proof (I_owner _ _ HI _ _ Hu Hh) as Hm.
+  destruct (wr_target_other _ _ _ (I_w _ _ HI _ _ Hu Hh) Ht) as [-> Hpa].
+  split.
+  - unfold rd_open, rdo. intros Hr.
+    destruct (at_ lv) eqn:Ep; try discriminate.
+    + destruct (cur_hnd lv) as [h|] eqn:Eh; [|discriminate].
+      apply cur_hnd_nth in Eh. apply nth_error_In in Eh.
+      pose proof (I_hnd _ _ HI _ _ _ Hv Eh) as [Hs _]. rewrite Hpa in Hs. rewrite Hs in Hr.
+      destruct (rl (gl s)); discriminate.
+    + assert (holds (at_ lv) = true) as Hhv by (rewrite Ep; reflexivity).
+      pose proof (I_owner _ _ HI _ _ Hv Hhv). assert (v = u) by congruence. subst v.
+      assert (lv = lu) by congruence. subst lv. unfold wr_open in Hw. rewrite Ep in Hw. contradiction.
+    + assert (holds (at_ lv) = true) as Hhv by (rewrite Ep; reflexivity).
+      pose proof (I_owner _ _ HI _ _ Hv Hhv). assert (v = u) by congruence. subst v.
+      assert (lv = lu) by congruence. subst lv. unfold wr_open in Hw. rewrite Ep in Hw. contradiction.
+  - intros y Hy. pose proof (wr_target_holds _ _ (wr_open_target _ _ Hy)) as Hhv.
+    pose proof (I_owner _ _ HI _ _ Hv Hhv). congruence.
+Qed.
+
+(* a drain loop goes round only while some reader is registered in the awaited counter *)
+Lemma retry_means_registered ns pl progs s w lw :
+  R ns pl progs s -> nth_error (thr s) w = Some lw -> is_retry (gl s) lw = true ->
+  exists k, awaits lw = Some k /\ ctr (gl s) k <> 0 /\
+  exists u lu, nth_error (thr s) u = Some lu /\
+    ((exists h, holds_handle lu h /\ hc h = k) \/ (at_ lu = R_ldr /\ rcnt lu = k)).
+Proof.
+  intros HR Hw Hr. unfold is_retry in Hr. unfold awaits.
+  destruct (at_ lw); try discriminate; apply negb_true_iff, Z.eqb_neq in Hr;
+    eexists; (split; [reflexivity|]); (split; [exact Hr|]); apply (spinning_means_registered _ _ _ _ _ HR Hr).
+Qed.
+(* with every handle released and no acquisition in flight both counters are zero *)
+Lemma counters_zero_when_released ns pl progs s k :
+  R ns pl progs s -> (forall u lu, nth_error (thr s) u = Some lu -> reg k lu = O) -> ctr (gl s) k = 0.
+Proof. intros HR H. rewrite (counters_count _ _ _ _ k HR), (all_zero_sum _ _ H). reflexivity. Qed.
+
 (* ---------- C07 (layer 2), syntactic: every atomic operation of the model is seq_cst ---------- *)
 Definition is_atomic_kind (k : Z) : bool := (K_LOAD <=? k) && (k <=? K_XCHG).
 
